@@ -46,6 +46,36 @@ fn many_names(rng: &mut StdRng) -> String {
     src
 }
 
+/// Many function-block types with directly addressed members, instantiated side by side (several
+/// instances of one type drive the same output address: last writer wins) and nested inside other
+/// blocks: the order in which bindings are collected and flushed must not depend on the process.
+fn io_names(rng: &mut StdRng) -> String {
+    let n = rng.gen_range(4..12);
+    let mut ids: Vec<usize> = (0..n).collect();
+    for i in (1..ids.len()).rev() {
+        ids.swap(i, rng.gen_range(0..=i));
+    }
+    let mut src = String::new();
+    for i in &ids {
+        let (byte, bit, w) = (i / 8, i % 8, 4 + 2 * (i % 5));
+        src.push_str(&format!("FUNCTION_BLOCK Lamp{i}\nVAR_INPUT en : BOOL; k : INT; END_VAR\nVAR_OUTPUT coil AT %QX{byte}.{bit} : BOOL; lvl AT %QW{w} : WORD; END_VAR\nVAR sens AT %IX{byte}.{bit} : BOOL; cnt : INT; END_VAR\ncnt := cnt + k;\ncoil := en XOR sens;\nlvl := INT_TO_WORD(cnt);\nEND_FUNCTION_BLOCK\n"));
+    }
+    for i in &ids {
+        let j = ids[(i + 1) % ids.len()];
+        src.push_str(&format!("FUNCTION_BLOCK Panel{i}\nVAR_INPUT en : BOOL; END_VAR\nVAR a : Lamp{i}; b : Lamp{j}; c : Lamp{i}; END_VAR\na(en := en, k := INT#{});\nb(en := NOT en, k := INT#{});\nc(en := en, k := INT#{});\nEND_FUNCTION_BLOCK\n", i + 1, i + 2, i + 3));
+    }
+    src.push_str("PROGRAM Main\nVAR\n  tick : INT;\n");
+    for i in &ids {
+        src.push_str(&format!("  l{i}a : Lamp{i}; l{i}b : Lamp{i}; p{i} : Panel{i}; l{i}c : Lamp{i};\n"));
+    }
+    src.push_str("END_VAR\ntick := tick + INT#1;\n");
+    for i in &ids {
+        src.push_str(&format!("l{i}a(en := TRUE, k := INT#{});\nl{i}b(en := FALSE, k := INT#{});\np{i}(en := (tick MOD 2) = 0);\nl{i}c(en := TRUE, k := tick);\n", 2 * i + 1, 3 * i + 2));
+    }
+    src.push_str("END_PROGRAM\n");
+    src
+}
+
 /// Canonical rendering of the variable state: by name, instances expanded by content (their ids and
 /// any map insertion order are representation, not state).
 fn render(st: &trust_runtime::memory::VariableStorage, v: &Value, depth: u32) -> String {
@@ -87,7 +117,9 @@ pub fn child(args: &[String]) -> i32 {
     }
     for k in order {
         let mut rng = StdRng::seed_from_u64(seed.wrapping_mul(7919).wrapping_add(k as u64));
-        let (kind, src, steps): (&str, String, Vec<J>) = if k % 2 == 0 || scripts.is_empty() {
+        let (kind, src, steps): (&str, String, Vec<J>) = if k % 4 == 2 {
+            ("ionames", io_names(&mut rng), vec![])
+        } else if k % 2 == 0 || scripts.is_empty() {
             ("names", many_names(&mut rng), vec![])
         } else {
             let sc = &scripts[(k / 2) % scripts.len()];
@@ -101,13 +133,18 @@ pub fn child(args: &[String]) -> i32 {
         match TestHarness::from_source(&src) {
             Ok(mut h) => {
                 let dbg = h.runtime_mut().enable_debug();
-                if kind == "names" {
+                if kind == "names" || kind == "ionames" {
                     for c in 0..4 {
                         h.advance_time(Duration::from_millis(7));
-                        h.set_input("v3", Value::Int(c));
+                        if kind == "names" {
+                            h.set_input("v3", Value::Int(c));
+                        } else {
+                            let _ = h.set_direct_input(&format!("%IX0.{}", c % 8), Value::Bool(c % 2 == 0));
+                        }
                         let r = h.cycle();
                         let evs = dbg.drain_runtime_events();
-                        digests.push(format!("{}|{}|{}", storage_digest(&h), hex(format!("{:?}", r.errors).as_bytes()), hex(format!("{evs:?}").as_bytes())));
+                        let image = hex(h.runtime().io().outputs());
+                        digests.push(format!("{}|{}|{}|{}", storage_digest(&h), hex(format!("{:?}", r.errors).as_bytes()), hex(format!("{evs:?}").as_bytes()), image));
                     }
                 } else {
                     for st in &steps {
